@@ -14,6 +14,7 @@ package c01
 import (
 	"context"
 	"fmt"
+	abci "github.com/cometbft/cometbft/abci/types"
 	"math/rand"
 	"sort"
 	"strings"
@@ -63,23 +64,23 @@ type event struct {
 }
 
 type mon struct {
-	rec     *fw.Recorder
-	r       *rand.Rand
-	w       *world.BridgeWorld
-	c       *chain.Chain
-	p       params
-	ledger  map[uint64]*entry
-	denoms  []string
-	tokenOf map[string]string // chain|erc20(lower) -> denom
-	supply  map[string]sdkmath.Int
-	evNonce map[string]uint64
-	events  map[string]*event // chain|nonce -> event
-	seenObs map[string]bool
-	todo    map[string][]sdk.Msg // validator bech -> FIFO of msgs
-	claimed map[string]bool      // batch key -> executed event already emitted
-	lateFee string
-	ethH    uint64
-	stopped bool
+	rec          *fw.Recorder
+	r            *rand.Rand
+	w            *world.BridgeWorld
+	c            *chain.Chain
+	p            params
+	ledger       map[uint64]*entry
+	denoms       []string
+	tokenOf      map[string]string // chain|erc20(lower) -> denom
+	supply       map[string]sdkmath.Int
+	evNonce      map[string]uint64
+	events       map[string]*event // chain|nonce -> event
+	seenObs      map[string]bool
+	todo         map[string][]sdk.Msg // validator bech -> FIFO of msgs
+	claimed      map[string]bool      // batch key -> executed event already emitted
+	lateFee      string
+	ethH         uint64
+	stopped      bool
 	lastObserved []string
 }
 
@@ -512,9 +513,20 @@ func (m *mon) block(valsBusy bool) {
 				}
 			case *skywaytypes.MsgBatchSendToRemoteClaim:
 				m.rec.Count("batch_claims_observed", 1)
+				matched := false
 				for _, bt := range pre.batches {
 					if bt.BatchNonce == cl.BatchNonce && strings.EqualFold(bt.TokenContract.GetAddress().Hex(), cl.TokenContract) {
+						matched = true
 						m.rec.Count("batches_executed", 1)
+						execNote := fmt.Sprintf("batch %s/%d token %s:", bt.ChainReferenceID, bt.BatchNonce, cl.TokenContract)
+						for _, tx := range bt.Transactions {
+							st := "?"
+							if e, ok := m.ledger[tx.Id]; ok {
+								st = e.Status + "/paid=" + e.Paid.String() + "/" + e.Denom
+							}
+							execNote += fmt.Sprintf(" tx%d(%s amount=%s)", tx.Id, st, tx.Erc20Token.Amount)
+						}
+						m.lastObserved = append(m.lastObserved, execNote)
 						for _, tx := range bt.Transactions {
 							if e, ok := m.ledger[tx.Id]; ok && e.Status == "pending" {
 								e.Status = "burned"
@@ -522,6 +534,40 @@ func (m *mon) block(valsBusy bool) {
 								m.rec.Count("transfers_burned", 1)
 							}
 						}
+					}
+				}
+				if _, ok := m.tokenOf[tokKey(ch, cl.TokenContract)]; ok && !matched && batchBuiltInBlock(br.Events, cl.BatchNonce) {
+					// The batch the claim names did not exist before this block: the end-blocker BUILT it (heights = 0 mod 50,
+					// batches are built before attestations are tallied) and the tally executed it right away (validators had
+					// voted for that nonce in advance). Its transfers sat in the pool before the block and are nowhere now.
+					m.rec.Count("batches_built_and_executed_in_one_block", 1)
+					var ids []uint64
+					for id, e := range m.ledger {
+						// the pool is indexed by token contract: every pooled transfer whose (chain, denom) maps to the claim's
+						// contract address belongs to it (with one ERC-20 address on two chains that includes the other chain's)
+						if e.Status == "pending" && m.tokenOf[tokKey(e.Chain, cl.TokenContract)] == e.Denom && len(post.place[id]) == 0 &&
+							((len(pre.place[id]) == 1 && pre.place[id][0] == "pool") || len(pre.place[id]) == 0) { // pooled before the block, or accepted in this very block
+							ids = append(ids, id)
+						}
+					}
+					sort.Slice(ids, func(i, j int) bool { return ids[i] < ids[j] })
+					note := fmt.Sprintf("batch %s/%d token %s built and executed inside this block:", ch, cl.BatchNonce, cl.TokenContract)
+					for _, id := range ids {
+						e := m.ledger[id]
+						e.Status = "burned"
+						expSupply[e.Denom] = expSupply[e.Denom].Sub(e.Paid)
+						m.rec.Count("transfers_burned", 1)
+						note += fmt.Sprintf(" tx%d(paid=%s)", id, e.Paid)
+					}
+					m.lastObserved = append(m.lastObserved, note)
+					other := ""
+					for id, e := range m.ledger {
+						if e.Status == "pending" && len(post.place[id]) == 0 {
+							other += fmt.Sprintf(" tx%d(%s %s paid=%s was %v)", id, e.Chain, e.Denom, e.Paid, pre.place[id])
+						}
+					}
+					if other != "" {
+						m.lastObserved = append(m.lastObserved, "still pending in the ledger but nowhere on the chain:"+other)
 					}
 				}
 			}
@@ -552,6 +598,22 @@ func (m *mon) block(valsBusy bool) {
 		m.rec.Count("histories_stopped_at_violation", 1)
 	}
 	m.rec.Distinct(m.abstract(post))
+}
+
+// batchBuiltInBlock: did this block emit the skyway "outgoing batch created" event for that batch nonce?
+func batchBuiltInBlock(evs []abci.Event, nonce uint64) bool {
+	want := fmt.Sprintf("%d", nonce)
+	for _, e := range evs {
+		if !strings.HasSuffix(e.Type, "EventOutgoingBatch") {
+			continue
+		}
+		for _, a := range e.Attributes {
+			if a.Key == "nonce" && strings.Trim(a.Value, "\"") == want {
+				return true
+			}
+		}
+	}
+	return false
 }
 
 func okStr(ok bool) string {
